@@ -8,39 +8,39 @@ TB = ("TLC 1.8 and its Json/IOUtils modules; rustc/cargo; the harness recorder (
 
 CHECKS = {
  "C01": ("model_checking", "trace validation against TLA+ contract + TLC model checking of the slot-map model",
-         "Every handle ever issued (live and stale) and forged values are probed through 26+15 lookup paths after every step of seeded random histories and overflow-boundary histories on the real crate; TLC validates each recorded execution against Contract.tla (accepted iff alive, designates the same entity, stale rejected forever) and checks the glue/representation invariant on the structural dump after every step; StorageMC explores every bounded history of the slot-map model with the handle universe quantified in every state.", "6 C01"),
+         "Every handle ever issued (live and stale) and forged values are probed through 26+15 lookup paths after every step of seeded random histories and overflow-boundary histories on the real crate; TLC validates each recorded execution against Contract.tla (accepted iff alive, designates the same entity, stale rejected forever) and checks the glue/representation invariant on the structural dump after every step; StorageMC explores every bounded history of the slot-map model with the handle universe quantified in every state. Also: the transition tour replays every state-changing transition of StorageMC on the real crate and compares the dump after each step with the model (drift 0), Apalache shows the storage invariant inductive for unbounded generations, and the same histories run in release and events builds and across the generation boundaries (2^16, 2^24, 2^31, 2^32-1) via the preset hook.", "6 C01"),
  "C02": ("model_checking", "trace validation against TLA+ contract (values through every access path)",
-         "After every step a full snapshot through a rotating read path (9 paths), all value-returning probes, closure arguments of all five query macros and destroy's return values are compared by TLC with the contract's own latest values; writes go through 8 mutable paths; archetype shapes 1/3/4/16 columns incl. zero-sized, align(64), heap-owning.", "6 C02"),
+         "After every step a full snapshot through a rotating read path (9 paths), all value-returning probes, closure arguments of all five query macros and destroy's return values are compared by TLC with the contract's own latest values; writes go through 8 mutable paths; archetype shapes 1/3/4/16 columns incl. zero-sized, align(64), heap-owning. Also in a release build; component shapes include a 0.8 KB component (block-wise copies), an align(64) one, a heap-owning one, a zero-sized one and 16/32 columns; Components::get/get_mut and View/Borrow::index are cross-checked.", "6 C02"),
  "C03": ("model_checking", "trace validation (forged/foreign handle classes) in debug and release builds",
-         "Forged handles (from_raw by class relative to the real dump: free slot with matching generation, position = capacity, beyond, 2^24-1, generation max, other archetype ids, undeclared ids) and handles of other worlds are probed through every lookup path and used for destroy/write/find after every step, in debug and release builds; the contract accepts only None or a clean panic unless the value is bit-identical to a live handle; process signals and escaped panics are violations.", "6 C03"),
+         "Forged handles (from_raw by class relative to the real dump: free slot with matching generation, position = capacity, beyond, 2^24-1, generation max, other archetype ids, undeclared ids) and handles of other worlds are probed through every lookup path and used for destroy/write/find after every step, in debug and release builds; the contract accepts only None or a clean panic unless the value is bit-identical to a live handle; process signals and escaped panics are violations. Also: unchecked typed conversions between archetypes (release), a two-world model tour with each other's handles, and valgrind memcheck on debug and release builds of the random histories.", "6 C03"),
  "C04": ("model_checking", "trace validation of a Drop/Clone ledger against the TLA+ contract",
-         "Every component instance carries an id; Drop/Clone are instrumented; TLC checks for every operation that exactly the values it releases are dropped, none twice, none while its entity lives, clone clones each live cell once into fresh values, and that nothing is alive after the worlds are dropped (incl. zero-sized values by count).", "6 C04"),
+         "Every component instance carries an id; Drop/Clone are instrumented; TLC checks for every operation that exactly the values it releases are dropped, none twice, none while its entity lives, clone clones each live cell once into fresh values, and that nothing is alive after the worlds are dropped (incl. zero-sized values by count). Also: valgrind leak check, and the borrow engine requires that nothing is alive after each nested-access script (a refused clone must not leave clones behind).", "6 C04"),
  "C06": ("model_checking", "trace validation of closure invocations and iterator snapshots",
-         "Every closure invocation of ecs_iter!/ecs_iter_borrow! (7 parameter menus over 4 archetypes) is recorded; TLC checks each visit is a live matching entity, visited once, with its own values, that a loop without Break visits exactly the matching entities, and that nothing runs after Break; Archetype::iter/iter_mut/entities()/slices are snapshot paths whose length must equal len().", "6 C06"),
+         "Every closure invocation of ecs_iter!/ecs_iter_borrow! (7 parameter menus over 4 archetypes) is recorded; TLC checks each visit is a live matching entity, visited once, with its own values, that a loop without Break visits exactly the matching entities, and that nothing runs after Break; Archetype::iter/iter_mut/entities()/slices are snapshot paths whose length must equal len(). Also: LoopsMC enumerates every population x Break position and the behaviours are replayed (visit order equal to the model's index loops).", "6 C06"),
  "C07": ("model_checking", "trace validation of ecs_iter_destroy! with random decision functions",
-         "ecs_iter_destroy! runs with random decision functions into the four EcsStepDestroy values; TLC folds the recorded visits over the contract (exactly-once, flagged ones destroyed, survivors intact, stop at Break, direct handles designate the visited entity) and re-checks the whole world afterwards.", "6 C07"),
+         "ecs_iter_destroy! runs with random decision functions into the four EcsStepDestroy values; TLC folds the recorded visits over the contract (exactly-once, flagged ones destroyed, survivors intact, stop at Break, direct handles designate the visited entity) and re-checks the whole world afterwards. Also: LoopsMC enumerates every population of up to 2 (thorough 3) entities in two archetypes x every decision function into the four EcsStepDestroy values; each is replayed on the real crate and validated.", "6 C07"),
  "C08": ("model_checking", "trace validation + glue invariant on dumps + preset overflow histories",
          "TLC checks every created handle against all handles issued before in that world and, on every dump, that each free position carries a generation newer than everything issued there (latent reuse); overflow histories via the preset hook check panic-instead-of-reuse in the default build and the documented wrap in the wrapping_version build; StorageMC checks freshness over all bounded histories.", "6 C08"),
  "C09": ("model_checking", "trace validation of direct-handle records (mint point x use point)",
-         "Direct handles are minted by to_direct (4 key kinds, 2 levels), by a mint-all after every step and by closure parameters of all five macros; TLC keeps a record (token, entity, removals at minting) per handle and demands: accepted while no removal happened since, designates its own entity, rejected after any removal; probed through 26+15 paths and used for destroy/write/find.", "6 C09"),
+         "Direct handles are minted by to_direct (4 key kinds, 2 levels), by a mint-all after every step and by closure parameters of all five macros; TLC keeps a record (token, entity, removals at minting) per handle and demands: accepted while no removal happened since, designates its own entity, rejected after any removal; probed through 26+15 paths and used for destroy/write/find. Also: direct-handle tokens that have died must never be current again (catches a missing version bump even when the same bits are re-minted), and Archetype::version() is compared with the dump.", "6 C09"),
  "C10": ("model_checking", "fault injection (closure/Clone/Drop panics, version overflow) validated against the contract",
-         "Closure panics at the k-th invocation, Clone panics during clone, Drop panics during world drop / destroy / ecs_iter_destroy!, generation and archetype-version overflow (preset hook) are injected under catch_unwind; after each the full observation (dump, snapshot, probes) is validated by TLC and the history continues with further operations and the final drop.", "6 C10"),
+         "Closure panics at the k-th invocation, Clone panics during clone, Drop panics during world drop / destroy / ecs_iter_destroy!, generation and archetype-version overflow (preset hook) are injected under catch_unwind; after each the full observation (dump, snapshot, probes) is validated by TLC and the history continues with further operations and the final drop. Also: every violation observed right after a panicking operation is attributed to C10; overflow histories run in default, release, events and wrapping builds; the real 2^24 capacity panic; valgrind.", "6 C10"),
  "C11": ("model_checking", "TLC enumeration of access nestings (BorrowMC) replayed on the real crate",
          "BorrowMC.tla models one RefCell per column as a stack machine; TLC enumerates every nested and sequential combination of find_borrow / iter_borrow / Borrow::component(_mut) / borrow_slice(_mut) / clone x shared/mut x column x archetype x entity (incl. an empty archetype) up to the depth bound, checks no-aliasing and free-at-rest, and each behaviour is executed on the real crate; granted/refused, values seen and cells free afterwards must agree.", "6 C11"),
  "C12": ("model_checking", "trace validation of len/capacity rules + representation invariant on dumps",
-         "After every step len/is_empty/capacity of every archetype are compared with the contract (len = live entities, capacity monotone, unchanged when there is room, create_within ok iff len < capacity and hands its argument back); the free-list clause of the representation invariant is checked on every dump (refill to capacity); StorageMC explores growth from every initial capacity.", "6 C12"),
+         "After every step len/is_empty/capacity of every archetype are compared with the contract (len = live entities, capacity monotone, unchanged when there is room, create_within ok iff len < capacity and hands its argument back); the free-list clause of the representation invariant is checked on every dump (refill to capacity); StorageMC explores growth from every initial capacity. Also: a release run at the REAL limit (with_capacity(2^24+1), fill 2^24-2, grow to exactly 2^24, panic at the limit, refill freed positions, growth from 2^23) validated against Capacity.tla, the tour, and the Apalache corollary that the free chain has exactly capacity - len members.", "6 C12"),
  "C13": ("model_checking", "trace validation with cloned worlds observed side by side",
-         "clone is an operation of the random histories (also with injected Clone panics); afterwards every existing world is fully observed after every step (dump, snapshot, probes incl. each other's handles and direct handles), so any leak of an operation into the other world is a contract violation; the clone must have the source's len, capacity, handles, values and pending events.", "6 C13"),
+         "clone is an operation of the random histories (also with injected Clone panics); afterwards every existing world is fully observed after every step (dump, snapshot, probes incl. each other's handles and direct handles), so any leak of an operation into the other world is a contract violation; the clone must have the source's len, capacity, handles, values and pending events. Also: clone_from into an existing (larger or smaller) world, and WorldMC.tla: every transition of a two-world model (clone, clone_from, drop, diverging creates/destroys, quick 1 514 transitions) replayed with both worlds compared with the model after every step.", "6 C13"),
  "C17": ("model_checking", "trace validation of event logs in an `events` build",
-         "With feature events the per-archetype created/destroyed lists and the world-level iterators (with size_hint after every next()) are recorded after every step and compared by TLC with the contract's pending-event sets (both creation paths, 4 destroy key kinds, ecs_iter_destroy!, per-archetype and world clears).", "6 C17"),
+         "With feature events the per-archetype created/destroyed lists and the world-level iterators (with size_hint after every next()) are recorded after every step and compared by TLC with the contract's pending-event sets (both creation paths, 4 destroy key kinds, ecs_iter_destroy!, per-archetype and world clears). Also: a 1300-cycle history with long logs and clears, and the overflow-boundary histories in an events build (no phantom events after a panicking destroy).", "6 C17"),
  "C05": ("translation_validation", "TLC enumeration of (declaration, query) programs vs. the real generators (library-driven + compiled sample)",
          "Match.tla transcribes archetype selection and OneOf binding; TLC enumerates every declaration of 1..2 (thorough 3) archetypes over a component pool x every parameter list up to length 2 over components/OneOf/typed, wildcard and dynamic entity and direct parameters, checks soundness and completeness of the matched set on the model, and every program is run through the real parser and all five real query generators (matched archetypes, per-parameter binding, error class incl. precedence); a stratified sample is compiled under forbid(unsafe_code) and executed (which entities the closure ran for, what each parameter was bound to, find on unmatched archetypes returns None without running the closure, negative programs fail to compile).", "6 C05"),
  "C14": ("exploration", "TLC-checked conversion laws + TLC-enumerated boundary classes replayed on the real conversions",
          "HandleMC.tla checks pack/unpack, raw round trip, TryFrom faithfulness, Select tables and Eq/Hash laws exhaustively at reduced widths and enumerates boundary classes at the real widths (positions 0,1,2,2^24-2,2^24-1 x ids 0..5,254,255 x generations 0,1,2,2^16,2^31,2^32-2,2^32-1) with expected outcomes; the harness runs every representative and seeded random class members through from_raw/raw/archetype_id/TryFrom/from_any/into_any/reference conversions/SelectArchetype/SelectEntity/SelectEntityDirect/HashSet/HashMap; per class, not per value (encode/decode over 2^64 values is outside what a model enumerates).", "6 C14"),
  "C15": ("translation_validation", "TLC enumeration of id declarations vs. the real DataWorld::new and compiled constants",
-         "Ids.tla transcribes the discriminant rule with collision and 255-overflow errors; TLC enumerates every declaration of up to 3 items with explicit ids in any order and cfg-disabled items under every assignment, checks distinctness and the rule on the model, and every declaration is pushed through the real DataWorld::new at archetype and component level; a sample is compiled: ARCHETYPE_ID, COMPONENT_ID, ecs_component_id!, archetype_id() of created handles, Select* conversions, and the two compile errors.", "6 C15"),
+         "Ids.tla transcribes the discriminant rule with collision and 255-overflow errors; TLC enumerates every declaration of up to 3 items with explicit ids in any order and cfg-disabled items under every assignment, checks distinctness and the rule on the model, and every declaration is pushed through the real DataWorld::new at archetype and component level; a sample is compiled: ARCHETYPE_ID, COMPONENT_ID, ecs_component_id!, archetype_id() of created handles, Select* conversions, and the two compile errors. Also: WorldDeclMC.tla enumerates two-level declarations (archetype and component ids with cfg decorations, 40 128 in the quick tier) through the real DataWorld::new.", "6 C15"),
  "C16": ("translation_validation", "TLC enumeration of cfg-decorated programs x assignments vs. their reduced twins through the real macros",
-         "Reduce (Ids.tla, MatchCfgMC.tla) deletes disabled items and strips enabled attributes; TLC enumerates decorated declarations and decorated query parameter lists with every truth assignment and the outcome of the reduced twin; decorated program and twin both go through the real generators, and a sample is compiled and executed with the assignment realised by cfg(all())/cfg(any()) and by --cfg flags. Known finding: any cfg on a OneOf parameter is a compile error.", "6 C16"),
+         "Reduce (Ids.tla, MatchCfgMC.tla) deletes disabled items and strips enabled attributes; TLC enumerates decorated declarations and decorated query parameter lists with every truth assignment and the outcome of the reduced twin; decorated program and twin both go through the real generators, and a sample is compiled and executed with the assignment realised by cfg(all())/cfg(any()) and by --cfg flags. Known finding: any cfg on a OneOf parameter is a compile error. Also: two-level decorated declarations (WorldDeclMC) with the predicate order TLA+ prescribes, and the cfg-probing macro chains of ecs_world! and of all five query macros are read back from the generated tokens (order of predicates, true/false literals, hand-over, entry point).", "6 C16"),
  "C18": ("exploration", "token scan of every enumerated expansion + TLC-enumerated holder/intruder client programs compiled by rustc",
          "PARTIAL. (a) every token stream the real world/query generators produce for the C05/C15/C16 enumerations is scanned for the `unsafe` keyword and every end-to-end crate is compiled under #![forbid(unsafe_code)]. (b) ClientMC.tla enumerates (holder, intruder, order) client programs with the aliasing rule as verdict; each is compiled: the unsound ones must be rejected with the expected error class, their sound twins must compile; plus a hand-written corpus of unsound/sound pairs (structural change inside a closure, two mutable accesses to one column, &mut entity parameters, smuggled references, worlds across threads, auto-trait facts). Whether rustc rejects a program is decided by rustc; TLA+ contributes the enumeration and pairing only.", "7"),
  "C19": ("model_checking", "the runtime trace validation repeated per feature set x profile with the contract constants set per build",
